@@ -10,6 +10,24 @@ from snaxc.dialects import snax
 from snaxc.util.dispatching_rules import dispatch_to_compute, dispatch_to_dm
 
 
+def common_for_op(op_a: Operation, op_b: Operation) -> scf.ForOp | None:
+    """
+    Find the innermost scf.for that contains both ops (at any nesting depth). Through the
+    back edge of this loop, op_b of one iteration and op_a of the next one are not ordered.
+    """
+    ancestors_a: list[Operation] = []
+    parent = op_a.parent_op()
+    while parent is not None:
+        ancestors_a.append(parent)
+        parent = parent.parent_op()
+    parent = op_b.parent_op()
+    while parent is not None:
+        if isinstance(parent, scf.ForOp) and parent in ancestors_a:
+            return parent
+        parent = parent.parent_op()
+    return None
+
+
 class InsertSyncBarrier(ModulePass):
     """This pass inserts  snax synchronisation barriers in a program.
     Synchronisation barriers are required when data is shared between
@@ -22,7 +40,24 @@ class InsertSyncBarrier(ModulePass):
         assert isinstance(ctx, AccContext)
         rewriter = Rewriter()
 
-        ops_to_sync = []
+        ops_to_sync: list[Operation] = []
+
+        def not_synced_by(sync_op: Operation) -> list[Operation]:
+            """
+            A barrier synchronises the ops that can only be reached through it: the ops
+            that follow in its block, or in regions nested in that block. A barrier in a
+            nested region (scf.if, loop that runs zero times) may not be executed at all
+            before an op outside of that region.
+            """
+            sync_block = sync_op.parent_block()
+            remaining: list[Operation] = []
+            for op_to_sync in ops_to_sync:
+                block = op_to_sync.parent_block()
+                while block is not None and block is not sync_block:
+                    block = block.parent_block()
+                if block is None:
+                    remaining.append(op_to_sync)
+            return remaining
 
         ## walk the entire module in order
         for op_in_module in op.walk():
@@ -33,11 +68,11 @@ class InsertSyncBarrier(ModulePass):
                 rewriter.insert_op(sync_op, InsertPoint.before(op_in_module))
 
                 # clear the list
-                ops_to_sync = []
+                ops_to_sync = not_synced_by(sync_op)
 
             if isinstance(op_in_module, snax.ClusterSyncOp):
                 # synchronisation ok, clear list
-                ops_to_sync: list[Operation] = []
+                ops_to_sync = not_synced_by(op_in_module)
 
             # check all operands of current op
             for operand in [*op_in_module.operands, *op_in_module.results]:
@@ -49,17 +84,13 @@ class InsertSyncBarrier(ModulePass):
 
                     if dispatch_to_dm(op_in_module, ctx) and not dispatch_to_dm(op_use.operation, ctx):
                         ops_to_sync.append(op_use.operation)
-                        if op_in_module.parent_op() == op_use.operation.parent_op() and isinstance(
-                            for_op := op_in_module.parent_op(), scf.ForOp
-                        ):
+                        if (for_op := common_for_op(op_in_module, op_use.operation)) is not None:
                             assert isinstance(for_op.body.block.last_op, scf.YieldOp)
                             ops_to_sync.append(for_op.body.block.last_op)
 
                     if dispatch_to_compute(op_in_module, ctx) and not dispatch_to_compute(op_use.operation, ctx):
                         ops_to_sync.append(op_use.operation)
-                        if op_in_module.parent_op() == op_use.operation.parent_op() and isinstance(
-                            for_op := op_in_module.parent_op(), scf.ForOp
-                        ):
+                        if (for_op := common_for_op(op_in_module, op_use.operation)) is not None:
                             assert isinstance(for_op.body.block.last_op, scf.YieldOp)
                             ops_to_sync.append(for_op.body.block.last_op)
 
